@@ -203,6 +203,13 @@ func checkC02(P *Prog, r *Result) {
 	r.floor("C02/current-test", 2)
 	r.floor("C02/single-emit", 1)
 
+	// ---- issue-path: an issue is reported where it occurred. Its path is written only by the issue
+	// constructors from the node's own path builder (C10's rule), every field of a recycled node context is
+	// re-initialised (C07's rule restricted to SchemaCtx: no path or memo of an earlier node survives), and each
+	// field's schema runs on the field of that name (C03's rule) ----
+	shareRule(P, r, checkC10, "C10/path-writers", nil, "C02/issue-path", 4)
+	shareRule(P, r, checkC07, "C07/reinit", func(o Obligation) bool { return strings.Contains(o.Construct, "#zog/internals.SchemaCtx.") }, "C02/issue-path", 8)
+	shareRule(P, r, checkC03, "C03/struct-writes-by-field", nil, "C02/issue-path", 10)
 	// ---- nil-iff-empty ----
 	P.checkNilIffEmpty(r)
 	// ---- a failure is never swallowed by a flag left behind, nor suppressed by an unrelated earlier issue ----
